@@ -19,6 +19,7 @@
 EXTENDS Loader
 
 CONSTANTS AllRoles, EnforceNew,
+          OverwriteMode, \* the enforcer's overwrite mode (FALSE: what is read is merged into the store)
           NameOrder     \* the names in the order a file lists them (file_rules is filled one name at a time)
 
 AnyB == [k |-> "any"]
@@ -68,7 +69,8 @@ Step(sh, lo, fs, dirs) ==
          [sh |-> [sh EXCEPT !.cache = r.cache], lo |-> [lo EXCEPT !.pc = "apply_main", !.reloaded = r.reloaded, !.data = r.data]]
     [] lo.pc = "apply_main" ->
          IF lo.reloaded \/ IsEmptyRules(sh.rules)
-         THEN [sh |-> [sh EXCEPT !.rules = lo.data], lo |-> [lo EXCEPT !.pc = "record_reset", !.changed = TRUE]]
+         THEN [sh |-> [sh EXCEPT !.rules = IF OverwriteMode THEN lo.data ELSE Update(sh.rules, lo.data)],
+               lo |-> [lo EXCEPT !.pc = IF OverwriteMode THEN "record_reset" ELSE "record_fill", !.changed = TRUE]]
          ELSE [sh |-> sh, lo |-> [lo EXCEPT !.pc = "dirs_check", !.changed = FALSE]]
     [] lo.pc = "record_reset" -> [sh |-> [sh EXCEPT !.frules = NoRules], lo |-> [lo EXCEPT !.pc = "record_fill"]]
     [] lo.pc = "record_fill" -> FillOne(sh, lo, "dirs_check")
@@ -77,7 +79,7 @@ Step(sh, lo, fs, dirs) ==
              force == lo.changed \/ upd
              sh2 == [sh EXCEPT !.dmt = NewDmt(AsSt(sh), fs, dirs)] IN
          IF force /\ Len(Ex(dirs)) > 0
-         THEN [sh |-> sh2, lo |-> [lo EXCEPT !.pc = IF lo.changed THEN "walk_read" ELSE "reread_main", !.k = 1]]
+         THEN [sh |-> sh2, lo |-> [lo EXCEPT !.pc = IF lo.changed \/ ~OverwriteMode THEN "walk_read" ELSE "reread_main", !.k = 1]]
          ELSE [sh |-> sh2, lo |-> [lo EXCEPT !.pc = "default", !.i = 1]]
     [] lo.pc = "reread_main" ->
          LET r == ReadCached(sh.cache, MainFile, fs, TRUE) IN
